@@ -168,7 +168,7 @@ func (b *Buffer) SetCleanerConfig(config CleanerConfig) error {
 	b.mutex.Lock()
 	defer b.mutex.Unlock()
 
-	b.cleaner = &config
+	*b.cleaner = config // N.B. the pointer itself is read without the lock (see ensure)
 
 	return nil
 }
